@@ -1102,7 +1102,26 @@ def mutate_case(rng, case):
     c['backend'] = rng.choice(BACKENDS)
     if rng.random() < 0.3:
         c['checker'] = rng.choice(CHECKERS)
-    return c
+    return sanitize_parallel(c)
+
+
+def sanitize_parallel(case):
+    """under -n 2 tasks without a dependency between them run concurrently: an action may then only write its own
+    targets (doit orders target -> file_dep) or a dependency no other task mentions; other writes are dropped"""
+    defs = {}
+    for op in case['ops']:
+        if op[0] == 'redefine':
+            defs[op[1]] = op[2]
+        elif op[0] == 'run' and op[1].get('par'):
+            for t, pl in (op[1].get('plan') or {}).items():
+                d = defs.get(int(t), {'deps': [], 'targets': []})
+                keep = []
+                for p, cid in pl.get('writes', []):
+                    others = any(p in dd['deps'] or p in dd['targets'] for u, dd in defs.items() if u != int(t))
+                    if p in d['targets'] or (p in d['deps'] and not others):
+                        keep.append([p, cid])
+                pl['writes'] = keep
+    return case
 
 
 EXH_PREFIX = [['edit', 0, 1], ['edit', 1, 2], ['redefine', 0, {'deps': [0], 'targets': [], 'uptodate': []}]]
